@@ -179,7 +179,7 @@ func (vt *Model) StartWithSize(cmd *exec.Cmd, width int, height int) error {
 					})
 					return
 				default:
-					vt.update(seq)
+					vt.handle(seq)
 				}
 			case ev := <-vt.events:
 				vt.eventHandler(ev)
@@ -223,6 +223,22 @@ func (vt *Model) Update(msg vaxis.Event) {
 		mouse := vt.handleMouse(msg)
 		vt.pty.WriteString(mouse)
 		return
+	}
+}
+
+// handle updates the model with a sequence from the PTY and delivers the events
+// the sequence raised. They are delivered right away: this goroutine is the only
+// reader of the events channel, if it left them in the channel and went on with
+// the next sequences, update would block for ever as soon as the channel is full
+func (vt *Model) handle(seq ansi.Sequence) {
+	vt.update(seq)
+	for {
+		select {
+		case ev := <-vt.events:
+			vt.eventHandler(ev)
+		default:
+			return
+		}
 	}
 }
 
